@@ -1,2 +1,63 @@
-(** C08 — placeholder until the assembler theorems land; replaced below. *)
-From Sameold Require Import Base.Bytes.
+(** C08 — Bounded reporting delay: trailers at once, headers within the hold time (symbol time). *)
+From Sameold Require Import Base.Bytes Model.Header Model.Combiner Model.Assembler
+  Proofs.CombinerP Proofs.AssemblerP.
+
+(** An EndOfMessage established by a burst is returned by the very [assemble] call that
+    delivers the burst — unless a StartOfMessage is being held at that moment (known finding F2) *)
+Theorem C08_eom_returned_by_establishing_call : forall s b now,
+  b <> [] -> pend_not_eom (a_pending s) ->
+  (forall p h, a_pending s = Some p -> t_data p <> Ok (SOM h)) ->
+  deduplicate (prune_previous (a_previous s) now)
+    (combine (map t_data (prune_history (a_history s) now
+       ++ [mkTimed (firstn MAX_MESSAGE_LENGTH b) (now + MAX_HISTORY_DURATION)]))) = Some (Ok EOM) ->
+  fst (asm_assemble s b now) = TMessage (Ok EOM).
+Proof. exact eom_at_once. Qed.
+Print Assumptions C08_eom_returned_by_establishing_call.
+
+(** For EVERY history (monotone clock) from the initial state: the pending slot never holds an
+    EndOfMessage between calls, and whatever it holds is due no later than 682 symbols after
+    the last burst delivered *)
+Theorem C08_hold_bounded_by_last_burst : forall ops,
+  mono 0 ops -> PInv (snd (asm_run asm_init ops)) (last_burst 0 ops).
+Proof. intros ops Hm. exact (run_PInv ops asm_init 0 0 PInv_init (N.le_refl 0) Hm). Qed.
+Print Assumptions C08_hold_bounded_by_last_burst.
+
+(** ... and the first idle poll at or after that instant returns it and empties the slot: a
+    pending result is never held indefinitely once bursts stop arriving *)
+Theorem C08_released_by_first_poll_after_hold : forall s last now p,
+  PInv s last -> a_pending s = Some p -> last + MAX_INTERBURST_SYMBOLS <= now ->
+  fst (asm_idle s now) = TMessage (t_data p) /\ a_pending (snd (asm_idle s now)) = None.
+Proof. exact held_result_released. Qed.
+Print Assumptions C08_released_by_first_poll_after_hold.
+
+(** the report time of a header in the scenario family of C02 is exact: the first poll at or
+    after 682 symbols after its last burst (see C02_header_two_of_three_any_third); and what a
+    run of idle polls reports is the held result, once, at the first poll past its deadline *)
+Theorem C08_idle_polls_report_exactly_at_deadline : forall polls s,
+  msgs (fst (asm_run s (map OIdle polls))) =
+  match a_pending s with
+  | None => []
+  | Some p =>
+    match find (fun n => t_deadline p <=? n) polls with
+    | Some tf => [(tf, t_data p)]
+    | None => []
+    end
+  end.
+Proof. exact polls_msgs. Qed.
+Print Assumptions C08_idle_polls_report_exactly_at_deadline.
+
+(** KNOWN FINDINGS: F3 — the same header six times: reported after the sixth burst;
+    F2 — the EndOfMessage is never reported *)
+Theorem C08_F3_refuted :
+  report_kinds (fst (asm_run asm_init
+    (tx_ops 1000 [(SEC,str_A);(SEC,str_A);(SEC,str_A);(SEC,str_A);(SEC,str_A);(SEC,str_A)] 800)))
+  = [(7592, 1)].
+Proof. exact F3_repeats_extend_the_hold. Qed.
+Print Assumptions C08_F3_refuted.
+
+Theorem C08_F2_refuted :
+  report_kinds (fst (asm_run asm_init
+    (tx_ops 1000 [(SEC,str_A);(SEC+SEC+(16+42)*8,str_A);(SEC,str_N);(SEC,str_N)] 6000)))
+  = [(5318, 1)].
+Proof. exact F2_eom_refused_while_som_pending. Qed.
+Print Assumptions C08_F2_refuted.
